@@ -21,6 +21,18 @@ CLAIMED = {
         note=TB + "asyncio.Queue FIFO order is trusted (interleaving independence).",
         technique="Coq proof by invariant over chunk lists (snoc-inductive specification Expl) + vm_compute correspondence against the real NewlineFramer",
         ref='6/C06'),
+    'C07': dict(
+        text=("Proof: for every 4-byte checksum function, magic and limits: the chunked reader equals the parser of the "
+              "concatenated stream (chunking independence); frame layout; round trip of every admissible (command, payload) "
+              "and of whole message sequences under any chunking with anything following; a payload is delivered only if the "
+              "stream holds magic, 12-byte command, LE length, its checksum and the payload; a checksum error consumes exactly "
+              "header + declared payload (stays in sync); magic/size errors consume only the header; the limits "
+              "characterisation incl. the block exception; session error policy. The round trip for commands ending in NUL is "
+              "refuted in Coq (C07_roundtrip_refuted) and reported as known finding F17. Correspondence: real BitcoinFramer vs "
+              "model instantiated with an executable SHA-256, byte-exact, bit flips in every field, boundary lengths."),
+        note=TB + "hashlib.sha256 trusted as the checksum oracle; MessageSession policy is proved on the model, its tie to session.py is by the C07 session scenarios.",
+        technique="Coq proof (refinement of the chunked reader to a stream parser, list induction) + vm_compute correspondence against the real BitcoinFramer",
+        ref='6/C07'),
 }
 
 REASONS = {}
